@@ -99,11 +99,12 @@ theorem an_signBitMask (w : Nat) : AllNodes P (Tools.signBitMask w) := by
   split
   · trivial
   · exact an_bin _ w an_one (an_constUint _ 2)
-theorem an_bitMask (bits w : Nat) : AllNodes P (Tools.bitMask bits w) := by
-  unfold Tools.bitMask Tools.bitMaskRaw
+theorem an_bitMaskRaw (bits w : Nat) : AllNodes P (Tools.bitMaskRaw bits w) := by
+  unfold Tools.bitMaskRaw
   split
   · trivial
   · exact an_sub w (an_bin _ w an_one (an_constUint _ 2)) an_one
+theorem an_bitMask (bits w : Nat) : AllNodes P (Tools.bitMask bits w) := an_bitMaskRaw _ w
 theorem an_maskBits {e : Expr} (cnt w : Nat) (he : AllNodes P e) : AllNodes P (Tools.maskBits e cnt w) :=
   an_bitAnd w he (an_bitMask cnt w)
 theorem an_intNegative {e : Expr} (w : Nat) (he : AllNodes P e) : AllNodes P (Tools.intNegative e w) :=
